@@ -389,6 +389,11 @@ pub fn c20(tier: &str) -> Report {
     one!("bincode standard().with_big_endian() / integer identity", BincodeCodec(bincode::config::standard().with_big_endian()), BincodeBeWire, nids(), true);
     one!("bincode legacy() / integer identity", BincodeCodec(bincode::config::legacy()), BincodeLegacyWire, nids(), true);
     one!("bincode legacy() / byte-field identity", BincodeCodec(bincode::config::legacy()), BincodeLegacyWire, bids(), true);
+    // "Foca's datagrams stay well-formed when an encode runs out of space
+    // mid-feed": the datagram size sweep (every scenario, Feed included, every
+    // packet size) with the bundled codecs inside real instances
+    let sweeps = crate::c07::bundled_codec_sweeps(th, &mut rep);
+    rep.set("datagrams_built_with_the_bundled_codecs(size sweep)", json!(sweeps));
     // F11: demonstrate the abort in a child process
     let mut demo = Vec::new();
     if let Ok(exe) = std::env::current_exe() {
